@@ -51,8 +51,17 @@ func rrFixed(typ uint16, ttl uint32, rdlen int) []byte {
 	return b
 }
 
+// nameStringsWithStarts is nameStrings that also reports the absolute offsets of the token starts.
+func nameStringsWithStarts(base, maxTok int, f func(desc string, b []byte, starts []int)) {
+	nameStringsImpl(base, maxTok, f)
+}
+
 // nameStrings enumerates hostile name encodings of up to maxTok tokens placed at absolute offset base.
 func nameStrings(base, maxTok int, f func(desc string, b []byte)) {
+	nameStringsImpl(base, maxTok, func(d string, b []byte, _ []int) { f(d, b) })
+}
+
+func nameStringsImpl(base, maxTok int, f func(desc string, b []byte, starts []int)) {
 	type tok struct {
 		name string
 		gen  func(at int, starts []int) []byte
@@ -76,7 +85,7 @@ func nameStrings(base, maxTok int, f func(desc string, b []byte)) {
 	}
 	var rec func(desc []string, b []byte, starts []int)
 	rec = func(desc []string, b []byte, starts []int) {
-		f(strings.Join(desc, " "), b)
+		f(strings.Join(desc, " "), b, starts)
 		if len(desc) == maxTok {
 			return
 		}
@@ -150,6 +159,39 @@ func generate(thorough bool) []kase {
 			}
 		})
 	}
+	// (i-b) a hostile token string hosted in the RDATA of an unknown-type record (never parsed as a name itself), entered
+	// from the next record's owner name through a pointer to each of its token starts: cycles that lie entirely
+	// before the name being decoded
+	{
+		regionBase := 12 + len(qA) + 2 + 10
+		regionTok := maxTok - 1
+		nameStringsWithStarts(regionBase, regionTok, func(desc string, nb []byte, starts []int) {
+			if len(starts) == 0 {
+				return
+			}
+			for ei, entry := range starts {
+				m := append(hdr(1, 2, 0, 0), qA...)
+				m = append(m, 0xc0, 12)
+				m = append(m, rrFixed(99, 1, len(nb))...)
+				m = append(m, nb...)
+				m = append(m, 0xc0|byte(entry>>8), byte(entry))
+				m = append(m, rrFixed(1, 1, 4)...)
+				m = append(m, 9, 9, 9, 9)
+				out = append(out, kase{Family: "name:via-opaque-region", Desc: fmt.Sprintf("%s entry%d", desc, ei), Msg: m})
+			}
+		})
+		// the 12 header bytes as compression targets: ID / flags / counts that read as pointers or labels
+		for _, id := range []uint16{0xc000, 0xc002, 0xc00c, 0x0161, 0x3f00} {
+			for _, ptr := range []byte{0, 1, 2, 4, 10} {
+				h := hdr(1, 0, 0, 0)
+				h[0], h[1] = byte(id>>8), byte(id)
+				m := append(h, 0xc0, ptr, 0, 1, 0, 1)
+				out = append(out, kase{Family: "name:pointer-into-header", Desc: fmt.Sprintf("id=%04x ptr=%d", id, ptr), Msg: m})
+				m2 := append(append([]byte{}, h...), 1, 'a', 0xc0, ptr, 0, 1, 0, 1)
+				out = append(out, kase{Family: "name:pointer-into-header", Desc: fmt.Sprintf("id=%04x label+ptr=%d", id, ptr), Msg: m2})
+			}
+		}
+	}
 	// (ii) per-type RDATA: every truncation and every byte of structure +-1
 	rdatas := []struct {
 		name string
@@ -189,6 +231,10 @@ func generate(thorough bool) []kase {
 			}
 		}
 		out = append(out, kase{Family: "rdata-rdlen:" + r.name, Desc: "+1", Msg: mk(r.rd, len(r.rd)+1)}, kase{Family: "rdata-rdlen:" + r.name, Desc: "65535", Msg: mk(r.rd, 65535)})
+	}
+	// (v) DoH response bodies: content-length missing / lying / over the cap, with bodies up to 8 MiB (see runCase)
+	for _, v := range []string{"no-length-1MiB", "no-length-8MiB", "length-65536", "length-70000", "length-negative", "length-garbage", "length-10-body-5", "length-5-body-1MiB", "length-65535-full"} {
+		out = append(out, kase{Family: "doh-body", Desc: v, Msg: append(hdr(1, 0, 0, 0), qA...)})
 	}
 	// (iii) header counts x number of records actually present
 	rrA := append([]byte{0xc0, 12}, append(rrFixed(1, 60, 4), 10, 0, 0, 1)...)
@@ -314,7 +360,62 @@ func budget(n int) uint64 {
 	return 256*1024 + 512*uint64(n) + uint64(n)*uint64(n)/2
 }
 
+// runDoHBody: the resolver must bound what it reads from a DoH response whatever the headers say.
+func runDoHBody(k kase, srv *dohmem.Server, res *ech.Resolver) (r workers.Result) {
+	r.Replay = map[string]any{"family": k.Family, "desc": k.Desc}
+	valid := append(hdr(1, 1, 0, 0), qA...)
+	valid = append(valid, 0xc0, 12)
+	valid = append(valid, rrFixed(1, 60, 4)...)
+	valid = append(valid, 10, 0, 0, 1)
+	big := func(n int) []byte { return append(append([]byte{}, valid...), make([]byte, n-len(valid))...) }
+	a := dohmem.Answer{}
+	switch k.Desc {
+	case "no-length-1MiB":
+		a = dohmem.Answer{Raw: big(1 << 20), NoLength: true}
+	case "no-length-8MiB":
+		a = dohmem.Answer{Raw: big(8 << 20), NoLength: true}
+	case "length-65536":
+		a = dohmem.Answer{Raw: big(65536)}
+	case "length-70000":
+		a = dohmem.Answer{Raw: big(70000)}
+	case "length-negative":
+		a = dohmem.Answer{Raw: big(1 << 20), LengthHeader: "-1"}
+	case "length-garbage":
+		a = dohmem.Answer{Raw: big(1 << 20), LengthHeader: "abc"}
+	case "length-10-body-5":
+		a = dohmem.Answer{Raw: valid[:5], LengthHeader: "10"}
+	case "length-5-body-1MiB":
+		a = dohmem.Answer{Raw: big(1 << 20), LengthHeader: "5"}
+	case "length-65535-full":
+		a = dohmem.Answer{Raw: big(65535)}
+	}
+	srv.Zone = func(string, uint16) dohmem.Answer { return a }
+	var ms0, ms1 runtime.MemStats
+	runtime.ReadMemStats(&ms0)
+	func() {
+		defer func() {
+			if p := recover(); p != nil {
+				r.Viol, r.What = "panic:doh-body", fmt.Sprintf("Resolve panicked: %v", p)
+			}
+		}()
+		ctx, cancel := context.WithTimeout(context.Background(), 10*time.Second)
+		defer cancel()
+		_, err := res.Resolve(ctx, "a")
+		r.Outcome = fmt.Sprintf("doh-body %s -> err=%v", k.Desc, err != nil)
+	}()
+	runtime.ReadMemStats(&ms1)
+	alloc := ms1.TotalAlloc - ms0.TotalAlloc
+	// 3 lookups, each may hold one body of at most 65535 bytes plus bookkeeping
+	if alloc > 3*(65535*4)+512*1024 && r.Viol == "" {
+		r.Viol, r.What = "alloc:doh-body:"+k.Desc, fmt.Sprintf("consuming the DoH response allocated %d bytes: the body size cap (65535) is not enforced", alloc)
+	}
+	return
+}
+
 func runCase(k kase, srv *dohmem.Server, res *ech.Resolver) (r workers.Result) {
+	if k.Family == "doh-body" {
+		return runDoHBody(k, srv, res)
+	}
 	r.Replay = map[string]any{"family": k.Family, "desc": k.Desc, "message": fmt.Sprintf("%x", k.Msg[:min(len(k.Msg), 600)]), "len": len(k.Msg)}
 	fam := k.Family
 	var ms0, ms1 runtime.MemStats
